@@ -122,6 +122,27 @@ def deep_merge_combine_lists(dct, merge_dct):
     return dct
 
 
+def is_variable_update(value):
+    """Whether a dict is an update for one variable (it names its value
+    or its updater, or already collects several updates) rather than a
+    dict of updates for children."""
+    return isinstance(value, collections.abc.Mapping) and (
+        '_value' in value or '_updater' in value
+        or MULTI_UPDATE_KEY in value)
+
+
+def merge_variable_updates(current, update):
+    """Combine two updates for the same node: updates of one variable
+    that name their value or updater are kept whole, side by side."""
+    if current and (
+            is_variable_update(current) or is_variable_update(update)):
+        if isinstance(current, dict) and MULTI_UPDATE_KEY in current:
+            current[MULTI_UPDATE_KEY].append(update)
+            return current
+        return {MULTI_UPDATE_KEY: [current, update]}
+    return deep_merge_multi_update(current, update)
+
+
 def deep_merge_multi_update(dct, merge_dct):
     """ Recursive dict merge combines multiple values
 
@@ -134,7 +155,7 @@ def deep_merge_multi_update(dct, merge_dct):
     for k, v in merge_dct.items():
         if (k in dct and isinstance(dct[k], dict)
                 and isinstance(merge_dct[k], collections.abc.Mapping)):
-            deep_merge_multi_update(dct[k], merge_dct[k])
+            dct[k] = merge_variable_updates(dct[k], merge_dct[k])
         elif k in dct:
             # put values together in a list under '_multi_update' key
             if isinstance(dct[k], dict) and MULTI_UPDATE_KEY in dct[k]:
